@@ -7,6 +7,7 @@ stays meaningful when the shrinker removes steps: a service reply names the
 client and 'cur'/'prev' instance, and its routing tag is resolved from the
 queries observed so far when the op is executed.
 """
+import zlib
 import os, random, shutil, json
 import host as H
 from world import World, Violation, NS
@@ -44,7 +45,7 @@ def gen_cfg(rnd, opts=None):
             nsvc = rnd.randint(5, 13)       # service indices beyond one byte of the per-client masks
         nsvc = max(nsvc, opts.get("min_svc", 0))
         names = rnd.sample(SVC_POOL, nsvc)
-        if "nsvc" not in opts and rnd.random() < 0.012:
+        if "nsvc" not in opts and rnd.random() < opts.get("p_wide", 0.012):
             # more entries than the 32 services the module's per-client masks can tell apart
             names = rnd.sample(["W%02d.example.org" % k if k % 7 == 0 else "w%02d.example.org" % k for k in range(60)], rnd.randint(31, 36))
             cfg["wide_table"] = True
@@ -61,6 +62,9 @@ def gen_cfg(rnd, opts=None):
     cfg["timeout"] = opts.get("timeout", rnd.choice([0, 0, 5, 20, 30, 90, 3600, 7200]))
     if rnd.random() < opts.get("p_logs", 0.4):
         cfg["logs"] = gen_logs(rnd)
+    if rnd.random() < 0.1:
+        # the operator wrote sections (and rules) in several blocks: blocks of one name are one object
+        cfg["split"] = rnd.randrange(1, 1 << 30)
     return cfg
 
 
@@ -235,25 +239,42 @@ def render_cfg(cfg, scratch, libpath=None):
     out = ['core {', ' library_path ( "%s" )' % (libpath or "lib"), ' modules ( %s )' % mods, '}']
     out.append('iauth {\n timeout %s\n}' % cfg["timeout"] if cfg.get("timeout") else 'iauth {\n}')
     # omit_xquery / omit_class: the file does not mention the (empty) section at all
+    # cfg["split"]: a section (a rule) is written as two blocks of the same name, which denote one object holding
+    # the members of both; the partition is a function of the split seed and the member's name, so that a reload
+    # that edits a table keeps the file's shape
+    sp = cfg.get("split")
+
+    def part(key):
+        return 0 if not sp else (zlib.crc32(("%d/%s" % (sp, key)).encode()) >> 3) & 1
+    late = []
     if cfg["modules"] != "iauth" and not (cfg.get("omit_xquery") and not cfg["services"]):
-        out.append("iauth_xquery {")
+        blocks = [[], []]
         for n, t in cfg["services"].items():
-            out.append(" %s %s" % (conf_quote(n), conf_quote(t)))
-        out.append("}")
+            blocks[part("s/" + n)].append(" %s %s" % (conf_quote(n), conf_quote(t)))
+        out += ["iauth_xquery {"] + blocks[0] + ["}"]
+        if sp:
+            late += ["iauth_xquery {"] + blocks[1] + ["}"]
     if cfg["modules"] == "class" and not (cfg.get("omit_class") and not cfg["rules"]):
-        out.append("iauth_class {")
-        out.append(' dummy "not-an-object"')
+        blocks = [[' dummy "not-an-object"'], []]
         for n, r in cfg["rules"].items():
-            out.append(" %s {" % conf_quote(n))
+            where = part("r/" + n)
+            crit = [[], []]
             for k, v in r.items():
-                out.append("  %s %s" % (k, conf_quote(v)))
-            out.append(" }")
-        out.append("}")
+                crit[part("k/%s/%s" % (n, k)) if part("x/" + n) else 0].append("  %s %s" % (k, conf_quote(v)))
+            blocks[where] += [" %s {" % conf_quote(n)] + crit[0] + [" }"]
+            if crit[1]:
+                # the rest of the rule follows in a block of its own, in this or in the section's other block
+                blocks[part("w/" + n)] += [" %s {" % conf_quote(n)] + crit[1] + [" }"]
+        out += ["iauth_class {"] + blocks[0] + ["}"]
+        if sp:
+            late += ["iauth_class {"] + blocks[1] + ["}"]
     if cfg.get("logs"):
-        out.append("logs {")
-        for name, f in cfg["logs"]:
-            out.append(' %s "file:%s"' % (conf_quote(name), f))     # relative: the daemon's cwd is the scratch dir
-        out.append("}")
+        blocks = [[], []]
+        for j, (name, f) in enumerate(cfg["logs"]):
+            # (not split by name: a logs key may be listed twice on purpose, the later entry then replaces the earlier)
+            blocks[0].append(' %s "file:%s"' % (conf_quote(name), f))     # relative: the daemon's cwd is the scratch dir
+        out += ["logs {"] + blocks[0] + ["}"]
+    out += late
     return "\n".join(out) + "\n"
 
 
@@ -740,6 +761,15 @@ class Gen:
                 names = sorted(self.rules_now)
                 if names and k < 0.3:
                     del self.rules_now[r.choice(names)]
+                elif names and k < 0.38:
+                    # an edit that changes nothing but the letter case of one value
+                    nm = r.choice(names)
+                    rl = self.rules_now[nm]
+                    ks = [kk for kk in sorted(rl) if isinstance(rl[kk], str) and rl[kk].swapcase() != rl[kk] and kk != "xreply_ok"]
+                    if ks:
+                        kk = r.choice(ks)
+                        rl[kk] = r.choice([rl[kk].swapcase(), rl[kk].upper(), rl[kk].lower(), rl[kk].capitalize()])
+                        self.fire("cfg_case_only_rule_edit")
                 elif names and k < 0.6:
                     nm = r.choice(names)
                     fresh = gen_rules(r, sorted(self.svc_now))
